@@ -25,6 +25,8 @@ import (
 // updates that were delivered.
 // ---------------------------------------------------------------------------------------------
 
+var concSamples atomic.Int64
+
 type witnessConc struct {
 	Layer    int    `json:"layer"`
 	Kind     string `json:"kind"`
@@ -210,6 +212,10 @@ func runConcurrent(r *ev.Run, seed int64) {
 	}
 	if ok {
 		r.Count("concurrent_rounds", 1)
+		if sampleSlot(&concSamples, 1) {
+			r.Sample(map[string]any{"layer": 1, "family": "concurrent", "case_seed": seed, "updates": nUpd, "writer_goroutines": W + 2, "reader_goroutines": 9,
+				"update_and_merge_calls": writes.Load(), "reads": reads.Load(), "final_view": canonView(v.Copy())})
+		}
 	}
 }
 
